@@ -1,20 +1,30 @@
 #!/bin/sh
-# Runs every seeded change under /verif/seeded against the quick check of its property (scratch worktree each)
-# and writes /verif/seeded/RESULTS.md.   usage: tools/run_all_seeds.sh [pattern]
+# Runs every seeded change under /verif/seeded against the quick check of its property (scratch worktree each,
+# up to $PAR at a time) and writes /verif/seeded/RESULTS.md.   usage: tools/run_all_seeds.sh [pattern] [PAR]
 cd /verif || exit 2
-PAT=${1:-C}
+PAT=${1:-C}; PAR=${2:-3}
 OUT=seeded/RESULTS.md
-TMP=/tmp/seed-results-$$.md
-echo "| seed | property | check exit | violations | first message |" > $TMP
-echo "|---|---|---|---|---|" >> $TMP
-for d in seeded/${PAT}*; do
-  [ -f "$d/patch.diff" ] || continue
-  s=$(basename $d); P=${s%%-*}
+TMPD=/tmp/seed-results-$$; mkdir -p $TMPD
+one() {
+  d=$1; s=$(basename $d); P=${s%%-*}
   LOG=$(tools/mutant_test.sh $P $d/patch.diff 2>&1)
   RC=$(echo "$LOG" | sed -n 's/^exit=//p')
   NV=$(echo "$LOG" | sed -n 's/^violations: //p' | head -1)
   MSG=$(echo "$LOG" | grep 'what:' | head -1 | cut -c1-160 | tr '|' '/')
-  echo "| $s | $P | $RC | $NV | $MSG |" >> $TMP
+  echo "| $s | $P | $RC | $NV | $MSG |" > $2/$s.row
   echo "$s exit=$RC violations=$NV"
-done
-if [ "$PAT" = "C" ]; then mv $TMP $OUT; else cat $TMP; rm -f $TMP; fi
+}
+export -f one 2>/dev/null
+ls -d seeded/${PAT}* | while read d; do [ -f "$d/patch.diff" ] && echo $d; done > $TMPD/list
+cat $TMPD/list | xargs -P $PAR -I{} sh -c '
+  d={}; s=$(basename $d); P=${s%%-*}
+  LOG=$(tools/mutant_test.sh $P $d/patch.diff 2>&1)
+  RC=$(echo "$LOG" | sed -n "s/^exit=//p")
+  NV=$(echo "$LOG" | sed -n "s/^violations: //p" | head -1)
+  MSG=$(echo "$LOG" | grep "what:" | head -1 | cut -c1-160 | tr "|" "/")
+  echo "| $s | $P | $RC | $NV | $MSG |" > '$TMPD'/$s.row
+  echo "$s exit=$RC violations=$NV"'
+{ echo "Last run: $(date -u +%Y-%m-%dT%H:%MZ) against /repo $(git -C /repo rev-parse --short HEAD), /verif $(git rev-parse --short HEAD)"; echo;
+  echo "| seed | property | check exit | violations | first message |"; echo "|---|---|---|---|---|"; cat $TMPD/*.row | sort -V; } > $TMPD/all.md
+if [ "$PAT" = "C" ]; then mv $TMPD/all.md $OUT; else cat $TMPD/all.md; fi
+rm -rf $TMPD
